@@ -4,7 +4,7 @@
     borsh/src/schema/container_ext/{validate.rs,max_size.rs}; [ZeroSized], [WellFormed],
     [Reach], [defect], [sizes] are the specifications in SchemaSpec.v. *)
 From Coq Require Import String List NArith ZArith.
-From Borsh Require Import Schema SchemaFns SchemaSpec SchemaProofsBase SchemaProofsC10.
+From Borsh Require Import Schema SchemaFns SchemaSpec SchemaProofsBase SchemaProofsC10 SchemaCyclic.
 Import ListNotations.
 Local Open Scope N_scope.
 
@@ -111,3 +111,21 @@ Proof.
   split; [|vm_compute; reflexivity].
   apply (proj2 (proj2 (C10_zero ex_rec "R")) ZRecursive). vm_compute. reflexivity.
 Qed.
+
+
+(** Finding F25.  [ZeroSized] - the notion [validate] and [is_zero_size] implement, and the one the theorems
+    above speak about - is a least fixed point; "every value is empty" is the greatest one, and through a cycle
+    of untagged definitions they differ: the full-strength reading of the property ("elements that are not
+    zero-sized" = elements that have a non-empty value) is REFUTED by a container whose sequence elements are
+    inhabited, always empty, and not [ZeroSized]; [validate] accepts it and [max_size] of the element type
+    answers Recursive although its true maximum is 0 (witness reproduced on the implementation on every run:
+    known finding class cyclic-zero-size). *)
+Theorem C10_zero_sized_semantic_refuted :
+  exists c d, (forall n, sizes c d n -> n = 0) /\ Inhabited c d /\ ~ ZeroSized c d.
+Proof. exact zero_sized_lfp_incomplete. Qed.
+Print Assumptions C10_zero_sized_semantic_refuted.
+
+Example C10_cyclic_witness_validates :
+  validate cyc_seq = SOk tt /\ max_size cyc_x = SErr MRecursive /\
+  get_definition cyc_seq "S" = Some (Sequence 4 0 10 "X").
+Proof. repeat split; vm_compute; reflexivity. Qed.
